@@ -45,7 +45,7 @@ func (m mode) String() string {
 func (m mode) family() string {
 	k := map[sshpkt.Kind]string{sshpkt.KindNone: "none", sshpkt.KindStream: "stream", sshpkt.KindCBC: "cbc",
 		sshpkt.KindGCM: "aes-gcm", sshpkt.KindChaChaPoly: "chacha20-poly1305"}[m.spec.Kind]
-	if m.spec.AEAD {
+	if m.spec.AEAD || m.spec.Kind == sshpkt.KindNone {
 		return k
 	}
 	if ms, ok := sshpkt.LookupMAC(m.mac); ok && ms.ETM {
@@ -199,6 +199,11 @@ const maxPacket = ssh.VerifC25MaxPacket
 
 const etmSuffix = "-etm@openssh.com"
 
+// classReadResultOverwritten: connectionState.readPacket hands out a slice of its own
+// ("copy the packet out here"); a caller that still holds packet i while packet i+1 is read
+// (the mux does) must not see it change.
+const classReadResultOverwritten = "a payload returned by connectionState.readPacket is overwritten by a later read"
+
 // classCBCIgnoresEtM is an ordinary violation class (the defect it names was found by this
 // check in the pinned tree and has since been fixed in /repo, see known_findings.txt
 // "fixed:"): with an "-etm" MAC the CBC packet cipher produces RFC 4253 encrypt-and-MAC
@@ -336,6 +341,12 @@ func run(c *vf.Ctx) {
 		for _, s := range seqStarts {
 			runSequence(c, jb.m, jb.m.keys(c, ivs[jb.iv], 1), s, payloads, fmt.Sprint("B/iv", jb.iv), false)
 		}
+		if jb.iv == 0 {
+			// every byte of the sequence number carries (and the sign bit flips) inside the sequence
+			for _, s := range []uint32{0xfe, 0xfffe, 0xfffffe, 0x7ffffffe} {
+				runSequence(c, jb.m, jb.m.keys(c, ivs[0], 1), s, payloads, "B/seq", false)
+			}
+		}
 	})
 
 	lap("B")
@@ -370,6 +381,35 @@ func run(c *vf.Ctx) {
 		runSequence(c, m, m.keys(c, ivs[0], 4), 5, payloads, "F", false)
 	})
 	lap("F")
+	// ---- G: ONE connection per mode, very different sizes back to back: 2^k + {-1,0,1,7,8,9,
+	// 15,16,17} for k = 4..17 and 27 neighbours of 8192, 16384, 65536, 131072 (thorough: of
+	// every 2^k, k = 9..17), in an order that alternates between the large and the small end.
+	c.ParallelFor(len(ms), func(j int) {
+		m := ms[j]
+		sizes := mixedSizes(c.Thorough)
+		var payloads [][]byte
+		for i, l := range sizes {
+			payloads = append(payloads, fixType(c.Bytes("payloadG", i%5, l)))
+		}
+		ivs := ivClasses(c, "iv/"+m.String(), m.ci.IVSize)
+		runSequence(c, m, m.keys(c, ivs[0], 6), uint32(0)-uint32(len(sizes)/2), payloads, "G", true)
+	})
+	lap("G")
+	// ---- K: the caller owns its buffers ------------------------------------------------
+	c.ParallelFor(len(ms), func(j int) { runOwnership(c, ms[j]) })
+	lap("K")
+	// ---- R: real transports, key changes with fresh cipher objects -------------------------
+	type jobR struct {
+		j      int
+		seq0   uint32
+		strict bool
+	}
+	var jobsR []jobR
+	for j := range ms {
+		jobsR = append(jobsR, jobR{j, 0, false}, jobR{j, 1<<32 - 4, false}, jobR{j, 1, true})
+	}
+	c.ParallelFor(len(jobsR), func(i int) { runRekey(c, ms, jobsR[i].j, jobsR[i].seq0, jobsR[i].strict) })
+	lap("R")
 	// ---- D: largest packets ------------------------------------------------------------
 	type jobD struct {
 		m mode
@@ -467,6 +507,10 @@ func runSequence(c *vf.Ctx, m mode, k keys, seq0 uint32, payloads [][]byte, plan
 		recs = append(recs, rec{p, true, plen})
 	}
 	rc := ssh.VerifC25NewReaderConn(r, seq0, bytes.NewReader(stream.Bytes()))
+	// A slice returned by connectionState.readPacket belongs to the caller: every third one is
+	// overwritten by the caller right away (must not disturb later reads), the others are kept
+	// and compared again after the whole stream has been read (must not change any more).
+	kept := make([][]byte, len(recs))
 	for i, rc0 := range recs {
 		seq := seq0 + uint32(i)
 		var got []byte
@@ -498,6 +542,19 @@ func runSequence(c *vf.Ctx, m mode, k keys, seq0 uint32, payloads [][]byte, plan
 		c.Outcome("round trip + independent decode ok: " + fam)
 		if nontrivial {
 			c.Nontrivial(fmt.Sprintf("%s/%d/%d", m.String(), len(rc0.payload), i))
+		}
+		if i%3 == 2 {
+			for j := range got {
+				got[j] ^= 0xff
+			}
+		} else {
+			kept[i] = got
+		}
+	}
+	for i, g := range kept {
+		if g != nil && !bytes.Equal(g, recs[i].payload) {
+			c.Violation(classReadResultOverwritten, map[string]any{"mode": m.String(), "plan": plan, "index": i, "of": len(recs), "payload_len": len(recs[i].payload), "now": vf.Hex8(g)})
+			return
 		}
 	}
 	// nothing may be left over: the reader consumed exactly the bytes the writer produced
